@@ -2345,7 +2345,7 @@ int parse_instruction_riscv(AsmContext *asm_context, char *instr)
 
           immediate = 0;
 
-          if (asm_context->pass == 1)
+          if (asm_context->pass == 2)
           {
             immediate = permutate_16(operands[0].value, RiscvPerm::imm9_46875, false);
           }
